@@ -1,6 +1,7 @@
 #!/bin/bash
 # second round of seeded changes (worktrees /tmp/mut2_Cxx): confirm independently, store as seeded/R2-Cxx, run all checks
 cd /verif
+FORCE=${FORCE:-0}
 for p in "$@"; do
   echo "=== R2-$p $(date +%H:%M:%S)"
   if [ ! -f seeded/R2-$p/confirm.txt ]; then
